@@ -18,11 +18,21 @@ def main(tier, seed):
         gl = it.get("goals") or []
         it["stat_goals"] = [g for g in gl if "*" not in g.replace("**", "")][:2] or gl[:1]
         it["K"] = 4
-    return analysis_check("C11", tier, seed, items=items, want=["central", "cumulant"], builders=[C.b_source, C.b_stats],
-                          N=5 if quick else 8, timeout=90 if quick else 200,
-                          assumptions=["orders k <= 4; Gram-Charlier / Cornish-Fisher expansions are not covered by this check yet"])
+        # tail bounds for plain variables, thresholds below and above typical means
+        singles = [g for g in gl if g.isidentifier()][:2]
+        it["tail_goals"] = [{"monom": g, "a": a, "moments": 3} for g in singles for a in ("1", "2", "5")]
+    # a growing counter: thresholds at or below the mean while the mass sits above them
+    items.append({"id": "tail-counter", "text": "x = 0\nwhile true:\n    f = Bernoulli(3/4)\n    x = x + f\nend\n", "T": None,
+                  "goals": ["x"], "points": [{}], "stat_goals": ["x"], "K": 4, "origin": "tail bounds: growing counter",
+                  "tail_goals": [{"monom": "x", "a": a, "moments": 3} for a in ("1", "2", "4", "6")]})
+    items.append({"id": "tail-transient", "text": "x = 6\nwhile true:\n    x = x/2 + 1 {1/2} x/2\nend\n", "T": None,
+                  "goals": ["x"], "points": [{}], "stat_goals": ["x"], "K": 4, "origin": "tail bounds: transient above the threshold",
+                  "tail_goals": [{"monom": "x", "a": a, "moments": 3} for a in ("1", "2", "3")]})
+    return analysis_check("C11", tier, seed, items=items, want=["parsed", "central", "cumulant", "tail"], builders=[C.b_source, C.b_stats, C.b_tail],
+                          N=8 if quick else 10, timeout=120 if quick else 300,
+                          assumptions=["orders k <= 4; tail bounds are read from the action's printed output at every n"])
 
 
 def replay(path):
     from ..driver import replay_analysis
-    return replay_analysis("C11", path, want=["central", "cumulant"], builders=[C.b_source, C.b_stats], N=5)
+    return replay_analysis("C11", path, want=["parsed", "central", "cumulant", "tail"], builders=[C.b_source, C.b_stats, C.b_tail], N=5)
